@@ -112,7 +112,7 @@ def main(ctx, args):
     ctx.assumptions += [
         "hook runtime::vm::verif (cfg mimium_verif) records (kind, cursor, size) at GetState/SetState/Mem/Delay and asserts pos+size <= storage length",
         "Model/Layout.lean states what a published layout means for run-time accesses; only accesses to the global (dsp) storage are judged, closure storages are counted but not judged",
-        "generator keeps stateful constructs out of `if` arms (known findings F3/F4) and one delay size per function (F2)",
+        "generator keeps stateful constructs out of `if` arms (known findings F3/F4)",
         "Model/Publish.lean is a hand port of how mirgen's eval_expr accumulates state_skeleton; its dsp skeleton (publishedSk (publishFn P dsp)) is compared with get_dsp_state_skeleton of the real compiler for every generated program",
     ]
     known = load_known("C05")
